@@ -202,6 +202,30 @@ def coq_batch(ctx, name, text, prints, timeout=900):
     return r
 
 
+def split_triple(ctx, s):
+    """printed `(B, P, M)` of three nat lists -> dict"""
+    s = s.strip()
+    if not (s.startswith("(") and s.endswith(")")):
+        ctx.harness_broken("cases file printed an unexpected result: %s" % s[:200], s)
+        return None
+    parts, depth, cur = [], 0, ""
+    for ch in s[1:-1]:
+        if ch in "([":
+            depth += 1
+        elif ch in ")]":
+            depth -= 1
+        if ch == "," and depth == 0:
+            parts.append(cur.strip())
+            cur = ""
+        else:
+            cur += ch
+    parts.append(cur.strip())
+    if len(parts) != 3:
+        ctx.harness_broken("cases file printed an unexpected result: %s" % s[:200], s)
+        return None
+    return {"B": parts[0], "P": parts[1], "M": parts[2]}
+
+
 def compile_schema(ctx, base, schema):
     d = os.path.join(vlib.COQ, "cases")
     os.makedirs(d, exist_ok=True)
@@ -247,19 +271,21 @@ def evaluate(ctx, obs, schema, base="C01_cases"):
     for i in range(0, len(obs), SHARD):
         cases = ";\n  ".join("(%s)" % to_case(o) for o in obs[i:i + SHARD])
         t = HEADER % (" Codec.GenTables" if have_gen else "", sname)
-        t += "Definition ccases : list ccase := [\n  %s\n].\nDefinition cases : list c01case := map (to_case sc) ccases.\n" % cases
-        t += "Definition B := Eval vm_compute in bad_cases cases.\nPrint B.\n"
-        t += "Definition P := Eval vm_compute in property_failures cases.\nPrint P.\n"
-        if have_gen:
-            t += "Definition M := Eval vm_compute in mismatches cases.\nPrint M.\n"
+        t += "Definition ccases : list ccase := [\n  %s\n].\n" % cases
+        # one evaluation: the conversion of the compact cases is shared by the three lists
+        t += ("Definition R := Eval vm_compute in let cases := map (to_case sc) ccases in\n"
+              "  (bad_cases cases, property_failures cases, %s).\nPrint R.\n" % ("mismatches cases" if have_gen else "@nil nat"))
         texts.append(t)
-    prints = ["B", "P", "M"] if have_gen else ["B", "P"]
+    prints = ["R"]
     with ThreadPoolExecutor(max_workers=10) as ex:
         futs = [ex.submit(coq_batch, ctx, "%s_%03d" % (base, i), t, prints) for i, t in enumerate(texts)]
         results = [f.result() for f in futs]
     cleanup_schema(sname)
     pf, mm = [], []
     for si, r in enumerate(results):
+        if r is None:
+            continue
+        r = split_triple(ctx, r["R"])
         if r is None:
             continue
         bad = vlib.coq_nat_list(r["B"])
@@ -322,7 +348,7 @@ def run(ctx):
         "evaluations": len(obs),
         "distinct_nontrivial": distinct,
         "rule": "per registered type: zero/max/edge/random values by reflection, strings of 255/256/32767/32768/65535 bytes, lists of 16/1000(/65535) "
-                "elements, payloads up to 64 KiB (thorough: ~4 MiB), msize boundary; every frame byte overwritten in turn, trailing bytes, truncations, "
+                "elements, payloads up to 64 KiB (thorough: 1 MiB), msize boundary; every frame byte overwritten in turn, trailing bytes, truncations, "
                 "bad sizes, all 256 type bytes; distinct = distinct (frame bytes, msize)",
         "registered_types": (regobs[0]["types"] if regobs else types),
         "types_exercised": len(types),
